@@ -108,7 +108,7 @@ def generic(pid, tier, seed, props, build, rule, assumptions):
     graphs = build(tier, random.Random(seed), work)
     for pe in PARSE_ERRORS:
         if pid == "C06":
-            v.violation("parse-raises %s" % pe["parse_error"], "%s: the parse of a valid generated configuration raised %s" % (pe["label"], pe["detail"][:300]),
+            v.violation("parse-raises %s%s" % ("same-named-states " if SAME_NAME_MARK in pe["label"] else "", pe["parse_error"]), "%s: the parse of a valid generated configuration raised %s" % (pe["label"], pe["detail"][:300]),
                         {"generated_suite_seed": pe["seed"], "nets": pe["nets"], "declared": pe["declared"], "error": pe["detail"]})
         else:
             C.log("generated suite skipped (its parse raised; reported by C06): %s %s" % (pe["label"], pe["parse_error"]))
@@ -166,12 +166,16 @@ def check_oracle(suite, edges):
                 raise C.MachineryError("generated suite %s: the resolver misses the declared parent of %s" % (suite.root, me))
 
 
+SAME_NAME_MARK = "states named after the producing test"
+
+
 def _gen_job(args):
-    seed, root, nets, with_expected = args
+    seed, root, nets, with_expected = args[:4]
+    fixed = args[4] if len(args) > 4 else None
     from . import gensuite as G
     C.repo_python_setup()
     import unittest_importer  # noqa: F401
-    suite = G.write(root, random.Random(seed))
+    suite = G.write(root, random.Random(seed), fixed=getattr(G, fixed) if fixed else None)
     G.activate(suite)
     restr = gen_restr(suite)
     try:
@@ -179,7 +183,8 @@ def _gen_job(args):
     except Exception as ex:  # noqa: a valid generated configuration must parse; reported by C06
         import re
         return {"parse_error": "%s: %s" % (type(ex).__name__, re.sub(r"\[(node|object)\][^\[]*", "<\\1> ", str(ex))[:80].strip()), "detail": str(ex)[:1500],
-                "label": "generated suite seed %d on %s" % (seed, nets), "declared": suite.text, "seed": seed, "nets": nets}
+                "label": "generated suite seed %d on %s%s" % (seed, nets, " (%s)" % SAME_NAME_MARK if fixed == "STATE_NAMED_AFTER_TEST" else ""),
+                "declared": suite.text, "seed": seed, "nets": nets}
     snap = S.snapshot(g, rec)
     snap["unexpanded"] = []
     snap["label"] = "generated suite seed %d (%d setup tests, %d product tests) eager on %s" % (seed, len(suite.setups), len(suite.leaves), nets)
@@ -195,11 +200,12 @@ def _gen_job(args):
     return snap
 
 
-def gen_graphs(rng, n, work, with_expected=False):
-    """eager parses of n generated suites (random setup DAGs on the shipped base), 1-3 workers"""
+def gen_graphs(rng, n, work, with_expected=False, fixed=None):
+    """eager parses of n generated suites (random setup DAGs on the shipped base), 1-3 workers; fixed = name of a handcrafted suite"""
     from ..props.c15 import fork_map
     import os
-    items = [(rng.randrange(1 << 30), os.path.join(work, "gen", "s%d" % i), rng.choice(["net1", "net1 net2", "net1 net2", "net1 net2 net3"]), with_expected)
+    items = [(rng.randrange(1 << 30), os.path.join(work, "gen", "%s%d" % ("f" if fixed else "s", i)),
+              "net1" if fixed else rng.choice(["net1", "net1 net2", "net1 net2", "net1 net2 net3"]), with_expected and not fixed, fixed)
              for i in range(n)]
     out = []
     for it, snap in zip(items, fork_map(_gen_job, items)):
